@@ -2,7 +2,7 @@
 
    "nopanic.env"   : does a `run` case (see Suites/SState.v) stay inside the resource envelope the
                      property is stated in?  Decided on the MODEL, by simulating the case step by step
-                     and evaluating a guard BEFORE every step (and on the last state):
+                     and evaluating a guard BEFORE every step ((iii) also on the last state):
                        (i)   an instruction whose operand is an allocation size (ONES / ZEROS / SINE /
                              the vector RANDs) is only executed with top INTEGER <= ALLOC_BOUND; the
                              LIST.NEIGHBOR* family (cost size x dimensions) only with its four INTEGER
@@ -89,8 +89,6 @@ Definition instr_guard (s : state) : bool :=
   | _ => true
   end.
 
-Definition guard (s : state) : bool := instr_guard s && (measure s <=? SIZE_BOUND).
-
 Section Sim.
   Context {FO : FloatOps}.
   Variable p : profile.
@@ -98,18 +96,20 @@ Section Sim.
 
   (* [grow]: stop like the run loop does when a step exceeds the growth cap *)
   Fixpoint sim (grow : bool) (k : nat) (w : world) (s : state) : res bool :=
-    if negb (guard s) then Ok false
+    if negb (measure s <=? SIZE_BOUND) then Ok false
     else match k with
          | O => Ok true
          | S k' =>
-             match step p reg w s with
-             | Ok (fin, w', s') =>
-                 if fin then Ok true
-                 else if grow && (state_size s + cfg_growth_cap (st_cfg s') <? state_size s') then Ok (guard s')
-                 else sim grow k' w' s'
-             | Panic => Ok true
-             | Need fn x => Need fn x
-             end
+             if negb (instr_guard s) then Ok false
+             else match step p reg w s with
+                  | Ok (fin, w', s') =>
+                      if fin then Ok true
+                      else if grow && (state_size s + cfg_growth_cap (st_cfg s') <? state_size s')
+                           then Ok (measure s' <=? SIZE_BOUND)
+                           else sim grow k' w' s'
+                  | Panic => Ok true
+                  | Need fn x => Need fn x
+                  end
          end.
 End Sim.
 
